@@ -375,6 +375,52 @@ def run(ck: Check, repo: Repo) -> None:
             ck.ob("C05.6", tsm, partner[0], outn == ["population"], "the mutated population replaces the old one")
     rets = [n for n in tc.live_nodes() if n.kind == "stmt" and isinstance(n.ast, ast.Return)]
     ck.ob("C05.6", tsm, rets[0].ast if rets else tsm.node, bool(rets) and all(dotted(r.ast.value) == "population" for r in rets), "the new population is returned")
+    _clone_applies_index(ck, repo)
+
+
+def _clone_applies_index(ck: Check, repo: Repo) -> None:
+    """select() hands the fresh index to clone(index=...): every clone implementation a population member can have applies it to the
+    object it returns (the algorithm base class) or forwards it (the agent wrapper)."""
+    base = repo.fn("agilerl.algorithms.core.base", "EvolvableAlgorithm.clone")
+    ip = _index_param(base)
+    cfg = CFG(base.node)
+    rets = [n for n in cfg.live_nodes() if n.kind == "stmt" and isinstance(n.ast, ast.Return)]
+    rname = dotted(rets[0].ast.value) if len(rets) == 1 and rets[0].ast.value is not None else None
+    sets = [n for n in cfg.live_nodes() if n.kind == "stmt" and isinstance(n.ast, ast.Assign) and len(n.ast.targets) == 1
+            and isinstance(n.ast.targets[0], ast.Attribute) and n.ast.targets[0].attr in ("index", "_index")]
+    ok = ip is not None and rname is not None and len(sets) == 1
+    detail = f"index parameter {ip}, returned {rname}, {len(sets)} index assignments"
+    if ok:
+        st = sets[0]
+        gs = cfg.guards_at(st)
+        # the only condition is `index is not None` (so a given index is always applied)
+        okg = all(pol and isinstance(g, ast.Compare) and dotted(g.left) == ip and len(g.ops) == 1 and isinstance(g.ops[0], ast.IsNot)
+                  and isinstance(g.comparators[0], ast.Constant) and g.comparators[0].value is None for g, pol, _ in gs) and len(gs) <= 1
+        ok = dotted(st.ast.targets[0].value) == rname and dotted(st.ast.value) == ip and okg \
+            and {d.id for d in cfg.defs_reaching(st, rname)} == {d.id for d in cfg.defs_reaching(rets[0], rname)}
+        detail = f"`{short(st.ast, 60)}` under {[ast.unparse(g) for g, _, _ in gs]}"
+        # ... and nothing copies the parent's index over it afterwards (copy_attributes carries _index)
+        later = [c for c in calls_in(base.node) if last_attr(c) in ("copy_attributes", "__dict__.update") and cfg.node_of(c) is not None
+                 and cfg.node_of(c).id in cfg.reachable_from(st) and cfg.node_of(c) is not st]
+        ck.ob("C05.4", base, later[0] if later else st.ast, not later, "the index given to clone() is applied after the parent's attributes were copied (not overwritten by them)",
+              construct="EvolvableAlgorithm.clone: order of copy_attributes and the index assignment")
+    ck.ob("C05.4", base, sets[0].ast if sets else base.node, ok, "clone(index) returns an object that carries the given index whenever one is given", detail=detail,
+          construct="EvolvableAlgorithm.clone: index applied")
+    w = repo.fn("agilerl.wrappers.agent", "AgentWrapper.clone")
+    wp = _index_param(w)
+    inner = [c for c in calls_in(w.node) if call_name(c) == "self.agent.clone"]
+    okw = wp is not None and len(inner) == 1
+    if okw:
+        a = get_kw(inner[0], "index", 0)
+        okw = a is not None and dotted(a) == wp and not [n for n in CFG(w.node).live_nodes() if n.kind == "stmt" and wp in [k for k, _ in CFG(w.node).defs_at(n)]]
+    ck.ob("C05.4", w, inner[0] if inner else w.node, okw, "a wrapped member forwards the index it is given to the wrapped agent's clone()",
+          detail=short(inner[0], 80) if inner else "no self.agent.clone call", construct="AgentWrapper.clone: index forwarded")
+
+
+def _index_param(fn: Fn) -> Optional[str]:
+    """the parameter that select() fills: keyword `index`, else the first parameter after self."""
+    ps = [p for p in fn.params if p != "self"]
+    return "index" if "index" in ps else (ps[0] if ps else None)
 
 
 def _phi_alts(tb: TermBuilder, p: Poly) -> List[Poly]:
@@ -415,6 +461,11 @@ def _tuple_pos(cfg: CFG, at: Node, name: str) -> Optional[int]:
 _TF = "agilerl/hpo/tournament.py"
 VARIANTS = [
     ("elite-worst", _TF, "model = population[int(np.argsort(rank)[-1])]", "model = population[int(np.argsort(rank)[0])]", "fire", "C05.1"),
+    ("wrapper-clone-drops-index", "agilerl/wrappers/agent.py", "agent_clone = self.agent.clone(index, wrap)", "agent_clone = self.agent.clone(wrap=wrap)", "fire", "C05.4"),
+    ("wrapper-clone-index-by-keyword-ok", "agilerl/wrappers/agent.py", "agent_clone = self.agent.clone(index, wrap)", "agent_clone = self.agent.clone(wrap=wrap, index=index)", "silent", None),
+    ("clone-index-before-copy-attributes", "agilerl/algorithms/core/base.py", "        clone = EvolvableAlgorithm.copy_attributes(self, clone)\n        if index is not None:\n            clone.index = index\n",
+     "        if index is not None:\n            clone.index = index\n        clone = EvolvableAlgorithm.copy_attributes(self, clone)\n", "fire", "C05.4"),
+    ("clone-index-only-when-truthy", "agilerl/algorithms/core/base.py", "        if index is not None:\n            clone.index = index\n", "        if index:\n            clone.index = index\n", "fire", "C05.4"),
     ("elite-argmax-ok", _TF, "model = population[int(np.argsort(rank)[-1])]", "model = population[int(np.argmax(last_fitness))]", "silent", None),
     ("elite-argmin", _TF, "model = population[int(np.argsort(rank)[-1])]", "model = population[int(np.argmin(last_fitness))]", "fire", "C05.1"),
     ("elite-neg-argsort-ok", _TF, "model = population[int(np.argsort(rank)[-1])]", "model = population[int(np.argsort(-rank)[0])]", "silent", None),
